@@ -1,20 +1,19 @@
 ---------------------------- MODULE RedactHistGen ----------------------------
-(* Generator: every history of calls and result mutations within the bound,    *)
-(* with the value the specification predicts for every call's result and for   *)
-(* every retained object at the end.                                           *)
+(* Generator: every history of calls (on inputs and on earlier results) and of  *)
+(* mutations (of inputs and of results) within the bound, with the values the   *)
+(* specification predicts for every call and for every object at the end.       *)
 EXTENDS RedactHist, Json, CSV
 
 VARIABLE hist
 gvars == <<vars, hist>>
 GInit == Init /\ hist = <<>>
 GNext == /\ steps < MaxSteps
-         /\ \/ \E i \in 1..NIn : Call(i) /\ hist' = Append(hist, [op |-> "call", n |-> i, f |-> "", val |-> last'.val,
-                                                                   fresh |-> (last'.res > NIn)])
-            \/ \E k \in DOMAIN results, f \in {"path", "query", "user"} :
-                  Mutate(results[k], f) /\ hist' = Append(hist, [op |-> "mutate", n |-> k, f |-> f, val |-> heap'[results[k]],
-                                                                  fresh |-> FALSE])
+         /\ \/ \E i \in DOMAIN heap : Call(i) /\ hist' = Append(hist, [op |-> "call", n |-> i, f |-> "", val |-> last'.val,
+                                                                        err |-> last'.err, fresh |-> (last'.res # i)])
+            \/ \E r \in DOMAIN heap, f \in {"path", "query", "user"} :
+                  Mutate(r, f) /\ hist' = Append(hist, [op |-> "mutate", n |-> r, f |-> f, val |-> heap'[r],
+                                                         err |-> Untouched, fresh |-> FALSE])
 GSpec == GInit /\ [][GNext]_gvars
 
-Emit == CSVWrite("%1$s", <<ToJson([ops |-> hist, final |-> [k \in DOMAIN results |-> heap[results[k]]]])>>,
-                 "hist_vectors.ndjson")
+Emit == CSVWrite("%1$s", <<ToJson([ops |-> hist, final |-> heap])>>, "hist_vectors.ndjson")
 =============================================================================
